@@ -331,11 +331,14 @@ fn fam_sizes(ctx: &CaseCtx, cov: &mut Cov) -> CaseOut {
             let base = first.len();
             chunks.push(Chunk::Lzma { reset: 3, props, prog: first });
             let target = *rng.pick(&[65535usize, 65536, 65537, 0x1FFFF, 0x20000, 0x20001, 0x10001]);
+            let reset = *rng.pick(&[0u8, 0, 1, 2, 3]);
+            // a dictionary reset forgets the first chunk: copies may only reach into this one
+            let base = if reset == 3 { 0 } else { base };
             let mut prog: Vec<Sym> = Vec::new();
             let mut produced = 0usize;
             while produced < target {
                 let len = (target - produced).min(273);
-                if len < 2 {
+                if len < 2 || base + produced == 0 {
                     prog.push(Sym::Lit(rng.byte()));
                     produced += 1;
                 } else {
@@ -344,7 +347,6 @@ fn fam_sizes(ctx: &CaseCtx, cov: &mut Cov) -> CaseOut {
                     produced += len;
                 }
             }
-            let reset = *rng.pick(&[0u8, 0, 1, 2, 3]);
             chunks.push(Chunk::Lzma { reset, props, prog });
             chunks.push(Chunk::Lzma { reset: 0, props, prog: vec![Sym::Rep { idx: 0, len: 3 }, Sym::Lit(rng.byte())] });
             cov.name(&format!("chunk_with_unpacked_size_{:#x}", target), 1);
